@@ -56,6 +56,7 @@
 //Rust hates greek characters
 #![allow(confusable_idents)]
 #![warn(missing_docs)]
+#![cfg_attr(clarabel_verif, allow(missing_docs))]
 
 const VERSION: &str = env!("CARGO_PKG_VERSION");
 
@@ -66,6 +67,9 @@ pub mod solver;
 pub mod timers;
 
 pub(crate) mod utils;
+
+#[cfg(clarabel_verif)]
+pub mod verif;
 pub use crate::utils::infbounds::*;
 
 #[cfg(feature = "python")]
